@@ -323,6 +323,107 @@ Proof.
     apply (DP j d IN). intro X. subst. rewrite Nat.eqb_refl in K. discriminate.
 Qed.
 
+(** * Threads of adaptive programs: no atomicity assumed *)
+
+Lemma sub_upd_same p : forall f t m, sub p t = Some m -> sub p (upd p f t) = Some (f m).
+Proof.
+  induction p as [|x p IH]; intros f t m H.
+  - simpl in *. congruence.
+  - destruct t as [s|ch]; simpl in *; try discriminate.
+    rewrite assoc_modify_eq. destruct (assoc x ch) as [n|]; try discriminate.
+    apply IH. exact H.
+Qed.
+
+Lemma nth_error_set_nth_eq {A} (l : list A) : forall n x a,
+  nth_error l n = Some a -> nth_error (set_nth n x l) n = Some x.
+Proof.
+  induction l as [|b l IH]; intros [|n] x a H; simpl in *; try discriminate; auto.
+  eapply IH; eauto.
+Qed.
+
+Lemma nth_error_set_nth_ne {A} (l : list A) : forall n m x,
+  n <> m -> nth_error (set_nth n x l) m = nth_error l m.
+Proof.
+  induction l as [|b l IH]; intros [|n] [|m] x H; simpl; auto; try congruence.
+Qed.
+
+(** a step of thread [j] is a local step on [j]'s view ... *)
+Lemma view_gstep_same {R} (s : list (thread R) * node) j :
+  view (gstep s j) j = option_map lstep (view s j).
+Proof.
+  unfold view, gstep. destruct s as [ths t]. cbn [fst snd].
+  destruct (nth_error ths j) as [[p pr]|] eqn:N.
+  2: { cbn [fst snd]. rewrite N. reflexivity. }
+  destruct pr as [r|c k].
+  - cbn [fst snd]. rewrite N. reflexivity.
+  - destruct (sub p t) as [m|] eqn:S; cbn [fst snd].
+    + rewrite (nth_error_set_nth_eq ths j _ _ N). rewrite (sub_upd_same p _ t m S). reflexivity.
+    + rewrite N, S. reflexivity.
+Qed.
+
+(** ... and invisible to every other thread *)
+Lemma view_gstep_other {R} (s : list (thread R) * node) i j :
+  thread_roots_disjoint (fst s) -> i <> j -> view (gstep s j) i = view s i.
+Proof.
+  intros RD NE. unfold view, gstep. destruct s as [ths t]. cbn [fst snd] in *.
+  destruct (nth_error ths j) as [[p [r|c k]]|] eqn:N; cbn [fst snd]; auto.
+  destruct (sub p t) as [m|] eqn:S; cbn [fst snd]; auto.
+  rewrite nth_error_set_nth_ne by congruence.
+  destruct (nth_error ths i) as [[q qr]|] eqn:M; auto.
+  rewrite sub_upd_disjoint; auto. eapply (RD j i); eauto.
+Qed.
+
+Lemma gstep_roots {R} (s : list (thread R) * node) j :
+  thread_roots_disjoint (fst s) -> thread_roots_disjoint (fst (gstep s j)).
+Proof.
+  intros RD. unfold gstep. destruct s as [ths t]. cbn [fst snd] in *.
+  destruct (nth_error ths j) as [[p [r|c k]]|] eqn:N; cbn [fst snd]; auto.
+  destruct (sub p t) as [m|] eqn:S; cbn [fst snd]; auto.
+  intros a b pa pb pra prb A B NE.
+  assert (RA : exists pr', nth_error ths a = Some (pa, pr')).
+  { destruct (Nat.eq_dec j a) as [E|E].
+    - subst a. rewrite (nth_error_set_nth_eq ths j _ _ N) in A. inversion A; subst. eauto.
+    - rewrite nth_error_set_nth_ne in A by exact E. eauto. }
+  assert (RB : exists pr', nth_error ths b = Some (pb, pr')).
+  { destruct (Nat.eq_dec j b) as [E|E].
+    - subst b. rewrite (nth_error_set_nth_eq ths j _ _ N) in B. inversion B; subst. eauto.
+    - rewrite nth_error_set_nth_ne in B by exact E. eauto. }
+  destruct RA as (x & RA). destruct RB as (y & RB). eapply RD; eauto.
+Qed.
+
+Lemma iter_succ_r {A} (f : A -> A) n : forall x, Nat.iter (S n) f x = Nat.iter n f (f x).
+Proof. induction n; intro x; simpl in *; auto. rewrite <- IHn. reflexivity. Qed.
+
+Lemma option_map_iter {A} (f : A -> A) n (o : option A) :
+  option_map (Nat.iter n f) (option_map f o) = option_map (Nat.iter (S n) f) o.
+Proof. destruct o; simpl; auto. f_equal. rewrite <- iter_succ_r. reflexivity. Qed.
+
+(** Under ANY schedule of primitive calls, the view of every thread — its
+    continuation (hence, at the end, its result) and the subtree at its root — is
+    the one obtained by performing its own calls alone, as many as the schedule
+    gave it.  No request is assumed atomic. *)
+Theorem threads_independent {R} (sched : list nat) : forall (s : list (thread R) * node) i,
+  thread_roots_disjoint (fst s) ->
+  view (grun s sched) i =
+  option_map (Nat.iter (count_occ Nat.eq_dec sched i) lstep) (view s i).
+Proof.
+  unfold grun. induction sched as [|j sched IH]; intros s i RD.
+  - simpl. destruct (view s i); reflexivity.
+  - cbn [fold_left]. rewrite IH by (apply gstep_roots; exact RD).
+    cbn [count_occ]. destruct (Nat.eq_dec j i) as [E|E].
+    + subst j. rewrite view_gstep_same. apply option_map_iter.
+    + rewrite view_gstep_other; auto.
+Qed.
+
+(** ... in particular the one it has when only its own calls are scheduled. *)
+Corollary threads_alone {R} (sched : list nat) (s : list (thread R) * node) i :
+  thread_roots_disjoint (fst s) ->
+  view (grun s sched) i = view (grun s (repeat i (count_occ Nat.eq_dec sched i))) i.
+Proof.
+  intro RD. rewrite !threads_independent by exact RD.
+  rewrite count_occ_repeat_eq by reflexivity. reflexivity.
+Qed.
+
 (** * The workload of the correspondence check *)
 
 Lemma only_proj i (s : list tcall) : only i s = map (fun x => (i, x)) (proj i s).
